@@ -366,7 +366,7 @@ func vtC11MemExec(in []int64) []int64 {
 
 // vtC11GenPods draws a pod set; usage and request figures are pairwise distinct so that the
 // published order has no full-key ties (sort.Slice orders those arbitrarily).
-func vtC11GenPods(rnd *rand.Rand, unit int64, allNil bool) []int64 {
+func vtC11GenPods(rnd *rand.Rand, unit int64, allNil bool, boundary bool) []int64 {
 	n := 1 + rnd.Intn(8)
 	if rnd.Intn(12) == 0 {
 		n = 0
@@ -396,9 +396,25 @@ func vtC11GenPods(rnd *rand.Rand, unit int64, allNil bool) []int64 {
 			evprio = []int64{-1, 5, 100}[rnd.Intn(3)]
 		}
 		lab := []int64{1000, 2000, 3000, -5}[rnd.Intn(4)]
+		hasLab := rnd.Intn(10) < 3
+		if boundary {
+			// the three sort keys at and around the int32 limits, 0, +-1, mixed signs
+			// (EvictionPriority and Priority are int32 in the code, LabelPriority int64)
+			const maxI32, minI32 = int64(1)<<31 - 1, -(int64(1) << 31)
+			if rnd.Intn(10) < 7 {
+				evprio = []int64{minI32, minI32 + 1, -1000, -1, 0, 1, 1000, maxI32 - 1, maxI32}[rnd.Intn(9)]
+			}
+			if rnd.Intn(10) < 5 {
+				prio = []int64{minI32, minI32 + 1, -1, 1, maxI32 - 1, maxI32, 5000}[rnd.Intn(7)]
+			}
+			if rnd.Intn(10) < 6 {
+				hasLab = true
+				lab = []int64{minI32 - 1, minI32, minI32 + 1, -1, 0, 1, maxI32 - 1, maxI32, maxI32 + 1, 1 << 40, -(1 << 40)}[rnd.Intn(11)]
+			}
+		}
 		used := int64(1+rnd.Intn(50))*unit + id
 		out = append(out, id, vtB(rnd.Intn(2) == 0), vtB(rnd.Intn(100) < 88), pol, vtB(allNil), prio,
-			vtB(rnd.Intn(100) < 82), evprio, vtB(rnd.Intn(10) < 3), lab, vtB(rnd.Intn(100) < 88), used,
+			vtB(rnd.Intn(100) < 82), evprio, vtB(hasLab), lab, vtB(rnd.Intn(100) < 88), used,
 			int64(rnd.Intn(40))*unit+id*8, int64(rnd.Intn(40))*unit+id*8+1, int64(rnd.Intn(40))*unit+id*8+2)
 	}
 	return out
@@ -426,7 +442,7 @@ func vtC11GenOracle(rnd *rand.Rand) []int64 {
 }
 
 func vtC11MemGen(rnd *rand.Rand, idx int) (string, []int64) {
-	style := []string{"pressure", "pressure", "pressure", "mixed", "calm", "degenerate"}[rnd.Intn(6)]
+	style := []string{"pressure", "pressure", "pressure", "mixed", "calm", "degenerate", "boundary", "boundary"}[rnd.Intn(8)]
 	unit := int64(1) << uint([]int{20, 24, 26}[rnd.Intn(3)])
 	cap := int64(8+rnd.Intn(120)) << 30
 	pct := int64(50 + rnd.Intn(51))
@@ -457,6 +473,10 @@ func vtC11MemGen(rnd *rand.Rand, idx int) (string, []int64) {
 		alower = 0
 	}
 	aprio := []int64{5999, 7999, 7999, 3999, 8500}[rnd.Intn(5)]
+	if style == "boundary" {
+		evthr = []int64{int64(1)<<31 - 1, 9999, 7999, -1}[rnd.Intn(4)]
+		aprio = []int64{7999, 7999, -1, -(int64(1) << 31)}[rnd.Intn(4)]
+	}
 	alloc := func() int64 {
 		switch rnd.Intn(8) {
 		case 0:
@@ -479,7 +499,7 @@ func vtC11MemGen(rnd *rand.Rand, idx int) (string, []int64) {
 	if style == "degenerate" && rnd.Intn(6) == 0 {
 		in[1] = 0
 	}
-	in = append(in, vtC11GenPods(rnd, unit, rnd.Intn(20) == 0)...)
+	in = append(in, vtC11GenPods(rnd, unit, rnd.Intn(20) == 0, style == "boundary")...)
 	in = append(in, vtC11GenOracle(rnd)...)
 	return style, in
 }
